@@ -114,6 +114,8 @@ UPDATES = {
     # same attribute block, withdrawn and announced NLRI bytes whose meaning depends on ADD-PATH (and, carrying withdrawals, an
     # API rendering of the same attribute set that differs from the one 'amb' asks for)
     'amb-ap': wire.encode_update(attrs=BASE).replace(b'\x00\x00', len(WD_AMB_RAW).to_bytes(2, 'big') + WD_AMB_RAW, 1) + NLRI_AMB_RAW,
+    # same attribute block again on a withdrawal without an NLRI field (RFC 4271 4.3 allows the attributes there; nothing they describe is announced)
+    'amb-wd': wire.encode_update(attrs=BASE, withdrawn=[P2]),
     # AS_PATH valid for a 2-byte-AS peer, malformed (treat-as-withdraw) for a 4-byte one
     'half': wire.encode_update(attrs=[ORIGIN_IGP, ASPATH_HALF, NEXT_HOP], nlri=[P1]),
     # malformed for everybody (treat-as-withdraw is not cached: the previous cache entry survives it)
@@ -174,7 +176,7 @@ def design_selfcheck() -> None:
     for ap in (True, False):
         u = wire.decode_update(UPDATES['amb-ap'], True, {(1, 1)} if ap else set())
         assert len(u['withdrawn']) == (1 if ap else 5) and len(u['nlri']) == (1 if ap else 5), u
-    blocks = {attr_block(UPDATES[m]) for m in ('amb', 'amb-ap')}
+    blocks = {attr_block(UPDATES[m]) for m in ('amb', 'amb-ap', 'amb-wd')}
     assert len(blocks) == 1
     assert wire.is_eor(UPDATES['eor4']) == (1, 1) and wire.is_eor(UPDATES['eor6']) == (2, 1) and wire.is_eor(UPDATES['eor6s']) == (2, 1)
     for name, body in OPENS.items():
